@@ -36,6 +36,11 @@ impl ChannelCookie {
     /// ```
     #[cfg(feature = "new-v4-ids")]
     pub fn new_v4() -> Self {
+        #[cfg(feature = "verif-hooks")]
+        if let Some(uuid) = crate::verif::next_uuid() {
+            return Self(uuid);
+        }
+
         Self(Uuid::new_v4())
     }
 
